@@ -122,3 +122,5 @@ def _ob_refusals(I):
 obligation('C14', 'S1.single_asset_refusals', entries=['execute', 'provide_liquidity'], kind='S',
            statement='a single-asset deposit is refused on an empty pool, on a pool with more than two assets, and when it would lock LP for a receiver other than the sender',
            bounds='three case families, amount symbolic', covers=['refused'])(_ob_refusals)
+
+from . import lockdep   # noqa: E402,F401  (cross-contract locked-deposit obligations registered for this property)
